@@ -795,6 +795,10 @@ def run(prog, rep, tier):
              'on the normalised result only; documented default of `normalize`')
     if check_evolution_criteria(prog, rep) < 2:
         raise AnalysisError('KRYLOV-default-doc: docstring default of normalize not found')
+    rep.rule('WRAP-sector-direction', 'both branches of FlatLinearOperator.charge_sector count the '
+             'direction of the leg')
+    if check_sector_direction(prog, rep) < 1:
+        raise AnalysisError('WRAP-sector-direction: mask of the non-compact branch not found')
     rep.rule('KRYLOV-restart', 'GMRES: reset() prepares the per-cycle state like __init__; unit '
              'first vector')
     if check_gmres(prog, rep) < 6:
@@ -960,4 +964,56 @@ def check_evolution_criteria(prog, rep):
                           'the docstring promises `normalize` defaults to `%s`, the code uses `%s`: '
                           'for a genuinely complex exponent the result is (not) normalised against '
                           'the documentation' % (mm.group(1), unparse(code)), code.lineno)
+    return n
+
+
+# ------------------------------------------------------------------ WRAP-sector-direction
+def check_sector_direction(prog, rep):
+    """WRAP-sector-direction: the total charge of a vector on a leg counts the charges of the leg
+    times its direction `qconj`. FlatLinearOperator.charge_sector selects the indices of a sector
+    in two branches; the compact one asks `leg.get_qindex_of_charges(value)` (which multiplies with
+    qconj -- fact read off its body); the non-compact one compares `leg.to_qflat()` (raw charges)
+    and therefore has to bring in `qconj` itself. Sibling branches of one setter agree."""
+    mc = prog.module('tenpy/linalg/charges.py')
+    g = mc.func('LegCharge.get_qindex_of_charges')
+    uses_qconj = any(is_self_attr(x, 'qconj') for x in ast.walk(g))
+    m = prog.module('tenpy/linalg/sparse.py')
+    f = None
+    for q, fn in m.functions.items():
+        if q.endswith('FlatLinearOperator.charge_sector') and any(
+                isinstance(d, ast.Attribute) and d.attr == 'setter' for d in fn.decorator_list):
+            f = fn
+    if f is None:
+        for cls in ast.walk(m.tree):
+            if isinstance(cls, ast.ClassDef) and cls.name == 'FlatLinearOperator':
+                for fn in cls.body:
+                    if isinstance(fn, ast.FunctionDef) and fn.name == 'charge_sector' and any(
+                            isinstance(d, ast.Attribute) and d.attr == 'setter'
+                            for d in fn.decorator_list):
+                        f = fn
+    if f is None:
+        raise AnalysisError('FlatLinearOperator.charge_sector setter not found')
+    n = 0
+    for st in ast.walk(f):
+        if isinstance(st, ast.Assign) and any(is_self_attr(t, '_mask') for t in st.targets) and \
+                'to_qflat' in unparse(st.value):
+            n += 1
+            # names the mask expression depends on (one level of local definitions)
+            deps = unparse(st.value)
+            for a in ast.walk(f):
+                if isinstance(a, ast.Assign) and isinstance(a.targets[0], ast.Name) and \
+                        a.targets[0].id in {x.id for x in ast.walk(st.value)
+                                            if isinstance(x, ast.Name)}:
+                    deps += ' ' + unparse(a.value)
+            ok = (not uses_qconj) or 'qconj' in deps
+            rep.instance('WRAP-sector-direction', {'mask': unparse(st.value)[:60],
+                                                   'compact_branch_uses_qconj': uses_qconj,
+                                                   'uses_qconj': ok})
+            if not ok:
+                rep.violation('WRAP-sector-direction', m, 'FlatLinearOperator.charge_sector',
+                              'raw-charges-mask',
+                              '`%s` selects the sector from the raw charges of the leg, the '
+                              'compact branch through get_qindex_of_charges (charges * qconj): for '
+                              'a leg with qconj = -1 the two branches select different indices'
+                              % key_text(st)[:60], st.lineno)
     return n
